@@ -16,7 +16,7 @@ from . import facts as F
 from .report import Ctx
 
 SCRATCH_ROOT = "/tmp/folo_verif_scratch"
-NODEBUG = {"C01", "C02", "C04", "C05", "C06", "C07", "C08", "C12", "C13", "C14", "C15", "C17", "C18", "C20"}
+NODEBUG = {"C01", "C02", "C04", "C05", "C06", "C07", "C08", "C12", "C13", "C14", "C15", "C16", "C17", "C18", "C20"}
 
 
 def _git(*args, cwd=None):
